@@ -10,3 +10,9 @@ CLAIMS["C03"] = dict(
     text="For one program per dependency-edge kind (and all 2-hop chains) every interleaving of set/unset/reset/load/merge with reads of individual options up to depth 4 (quick) / 5 (thorough) is executed on fresh real instances; after each transition the API observation is compared with the observation after discarding all caches, with a fresh instance given the final user state (both orders) and with a reversed read order. Exhaustive within the op alphabet and depth; states merged only on an over-fine key.",
     note="Final user state is read from the implementation's own _user_value/_user_selection; op alphabet per program is 2 values per settable option.",
 )
+CLAIMS["C05"] = dict(
+    category="model_checking",
+    technique="explicit-state BFS over set/reset/load/merge histories on the real evaluator; state invariant + reference selection (pick tracked along the history) + output agreement",
+    text="For every program of the choice families every operation history up to depth 3 (quick) / 4 (thorough) is replayed on a fresh real Kconfig; in every distinct reachable user state the exactly-one / none-when-invisible invariant, the documented selection rule (pick, else first enabled visible default, else first visible member) and the header/CMake/JSON/sdkconfig agreement are evaluated. Exhaustive within the alphabet; states merged on the complete user state.",
+    note="User pick semantics (last member set to y since the last reset / replacing load) is the reading of the statement encoded in refsem.RefState; default-marked loads excluded (C08).",
+)
